@@ -63,6 +63,13 @@ def gen_cases(ctx):
             rng.shuffle(mixed)
             for terms in (allz, somez, mixed):
                 mk("sum_apply", n, terms, style="generic"); mk("expect", n, terms, style="normalised")
+    # strings that were already used (applied, lowered to gates, cloned) before their last factors were added: a string is its current factors
+    for n in (2, 3, 4):
+        for _ in range(4):
+            t = rand_string(rng, n, allow_empty=False)
+            while len(t["ops"]) < 2: t = rand_string(rng, n, allow_empty=False)
+            t["used_after"] = [rng.randrange(1, len(t["ops"])), n]
+            mk("apply", n, [t]); mk("sum_apply", n, [rand_string(rng, n), t]); mk("expect", n, [t, rand_string(rng, n)], style="normalised")
     # expectation values on registers above the 64-amplitude threshold of the parallel inner product, complex coefficients
     for n in (7, 7, 8):
         mk("expect", n, [rand_string(rng, n, "complex") for _ in range(rng.randrange(2, 5))], style="normalised")
